@@ -283,6 +283,34 @@ func registerFlows() {
 		register(&entry{name: f.name, kind: f.kind, costly: true, budget: 8 << 20, seeds: seeds, run: func(b []byte) { runFlow(f, b, true) }})
 	}
 	registerServiceFlows()
+	// a configuration text (the part of krb5.conf the AS exchange reads) parsed and then used by a client that assumes
+	// pre-authentication: what the parser lets through has to be safe for the code that consumes it. No KDC is
+	// reachable; the exchange ends at the first connection attempt.
+	confSeedSmall := "[libdefaults]\n default_realm = TEST.GOKRB5\n dns_lookup_kdc = false\n default_tkt_enctypes = aes256-cts-hmac-sha1-96 aes128-cts-hmac-sha1-96\n" +
+		" preferred_preauth_types = 18, 17\n ticket_lifetime = 10h\n renew_lifetime = 1d\n forwardable = yes\n udp_preference_limit = 1\n noaddresses = true\n" +
+		"[realms]\n TEST.GOKRB5 = {\n  kdc = kdc1.test.gokrb5:88\n }\n[domain_realm]\n .test.gokrb5 = TEST.GOKRB5\n"
+	loginKT := keytab.New() // keys for every etype a mutated configuration may select (no string-to-key per input)
+	for _, et := range []int32{17, 18, 23, 16, 19, 20} {
+		for _, realm := range []string{"TEST.GOKRB5"} {
+			loginKT.AddEntry("user1", realm, "x", time.Unix(1000, 0), 1, et)
+		}
+	}
+	register(&entry{name: "config.NewFromString + client.Login(assumed pre-authentication)", kind: "text", costly: true, budget: 8 << 20, seeds: [][]byte{[]byte(confSeedSmall)}, run: func(b []byte) {
+		cfg, err := config.NewFromString(string(b))
+		if err != nil || cfg == nil {
+			if _, ok := err.(config.UnsupportedDirective); !ok || cfg == nil {
+				return
+			}
+		}
+		vclock.Virtual(cworld.T0)
+		vnet.Reset()
+		vnet.MaxDials = 50
+		defer func() { vnet.MaxDials = 0 }()
+		cl := client.NewWithKeytab("user1", "TEST.GOKRB5", loginKT, cfg, client.AssumePreAuthentication(true), client.DisablePAFXFAST(true))
+		cl.Login()
+		cl.GetServiceTicket("HTTP/host.test.gokrb5")
+		cl.Destroy()
+	}})
 }
 
 // ---- service flows ----------------------------------------------------------
